@@ -67,6 +67,8 @@ def main():
         if out.strip():
             print("/repo is not clean; refusing", out)
             return 2
+        evp = "/verif/evidence/%s.json" % prop
+        evidence_backup = open(evp, "rb").read() if os.path.exists(evp) else None
         try:
             rc, out = sh(["git", "-C", "/repo", "apply", diff])
             t0 = time.time()
@@ -87,6 +89,9 @@ def main():
         finally:
             sh(["git", "-C", "/repo", "checkout", "--", "."])
             sh(["git", "-C", "/repo", "clean", "-fdq"])
+            # the evidence file describes the unchanged tree: put back what was there
+            if evidence_backup is not None:
+                open(evp, "wb").write(evidence_backup)
     d = "/verif/seeded/%s-%sm%s" % (prop, ("r%s" % rnd) if rnd not in ("", "1") else "", n)
     if confirmed:
         os.makedirs(d, exist_ok=True)
